@@ -378,6 +378,8 @@ def g_lookup(rng):
                 v = rng.choice([{'s': '/nonexistent/logging.conf'}, None])
             else:
                 v = g_cval(rng)
+                if k == 'SERVICE_URL' and isinstance(v, dict) and v.get('ck') == 'raise':
+                    v = {'s': 'host:1'}         # GRPCService reads it next to SERVICE_SECURE: keep that use site judged
             custom.append([k, v])
     for key in ('IN_APP_INCLUDE', 'IN_APP_EXCLUDE'):
         ps = g_prefixes(rng)
